@@ -66,6 +66,7 @@ type vtC11Factory struct {
 	nodeOK            bool
 	node              float64
 	pod               map[string]float64
+	be                *vtC11BE
 }
 
 type vtC11Res struct {
@@ -73,6 +74,22 @@ type vtC11Res struct {
 	props map[string]string
 	ok    bool
 	v     float64
+	// node BE cpu metric: window average (with its sample count) and last sample
+	beAvg, beLast *vtC11BM
+}
+
+// one series of the node BE cpu metric as generated: value = val / 2^shift
+type vtC11BM struct {
+	ok       bool
+	val, cnt int64
+}
+
+type vtC11BE struct {
+	policy                      bool
+	lowF, upF, uthrF, winF      bool
+	low, up, uthr, win          int64
+	interval, shift             int64
+	avg, cur                    [3]vtC11BM // usage, request, real limit
 }
 
 func (f *vtC11Factory) New(meta metriccache.MetricMeta) metriccache.AggregateResult {
@@ -82,6 +99,22 @@ func (f *vtC11Factory) New(meta metriccache.MetricMeta) metriccache.AggregateRes
 		r.ok, r.v = f.nodeOK, f.node
 	case f.podKind:
 		r.v, r.ok = f.pod[r.props[string(metriccache.MetricPropertyPodUID)]]
+	case string(metriccache.NodeMetricBE):
+		if f.be != nil && r.props[string(metriccache.MetricPropertyBEResource)] == string(metriccache.BEResourceCPU) {
+			idx := -1
+			switch metriccache.MetricPropertyValue(r.props[string(metriccache.MetricPropertyBEAllocation)]) {
+			case metriccache.BEResourceAllocationUsage:
+				idx = 0
+			case metriccache.BEResourceAllocationRequest:
+				idx = 1
+			case metriccache.BEResourceAllocationRealLimit:
+				idx = 2
+			}
+			if idx >= 0 {
+				r.beAvg, r.beLast = &f.be.avg[idx], &f.be.cur[idx]
+				r.v = float64(int64(1) << uint(f.be.shift))
+			}
+		}
 	}
 	return r
 }
@@ -90,12 +123,30 @@ func (r *vtC11Res) GetProperties() map[string]string    { return r.props }
 func (r *vtC11Res) AddSeries(promstorage.Series) error  { return nil }
 func (r *vtC11Res) TimeRangeDuration() time.Duration    { return time.Second }
 func (r *vtC11Res) Count() int {
+	if r.beAvg != nil {
+		if r.beAvg.ok {
+			return int(r.beAvg.cnt)
+		}
+		return 0
+	}
 	if r.ok {
 		return 1
 	}
 	return 0
 }
 func (r *vtC11Res) Value(t metriccache.AggregationType) (float64, error) {
+	if r.beAvg != nil {
+		m := r.beAvg
+		if t == metriccache.AggregationTypeLast {
+			m = r.beLast
+		} else if t != metriccache.AggregationTypeAVG {
+			return 0, fmt.Errorf("unexpected aggregation %v", t)
+		}
+		if !m.ok {
+			return 0, fmt.Errorf("no sample")
+		}
+		return float64(m.val) / r.v, nil
+	}
 	if !r.ok {
 		return 0, fmt.Errorf("no sample")
 	}
@@ -175,17 +226,32 @@ type vtC11Pod struct {
 	used, req0, req1, req2                    int64
 }
 
+// a further container of a pod: kind 0 regular, 1 init, 2 sidecar (init container with restartPolicy Always)
+type vtC11Ctr struct {
+	pod, kind        int64
+	req0, req1, req2 int64
+}
+
 type vtC11Input struct {
 	cfg     vtC11Cfg
 	pods    []vtC11Pod
 	already map[int64]bool
 	flips   []int64
 	fails   []int64
+	extra   []vtC11Ctr
+	be      vtC11BE
 }
 
 func vtC11Decode(in []int64) vtC11Input {
 	pos := 0
-	next := func() int64 { v := in[pos]; pos++; return v }
+	next := func() int64 {
+		if pos >= len(in) { // the trailer (further containers, BE config) is optional
+			return 0
+		}
+		v := in[pos]
+		pos++
+		return v
+	}
 	nb := func() bool { return next() != 0 }
 	var x vtC11Input
 	c := &x.cfg
@@ -211,11 +277,23 @@ func vtC11Decode(in []int64) vtC11Input {
 	for a := int(next()); a > 0; a-- {
 		x.fails = append(x.fails, next())
 	}
+	for a := int(next()); a > 0; a-- {
+		x.extra = append(x.extra, vtC11Ctr{pod: next(), kind: next(), req0: next(), req1: next(), req2: next()})
+	}
+	b := &x.be
+	b.policy, b.lowF, b.low, b.upF, b.up = nb(), nb(), next(), nb(), next()
+	b.uthrF, b.uthr, b.winF, b.win, b.interval, b.shift = nb(), next(), nb(), next(), next(), next()
+	for i := 0; i < 3; i++ {
+		b.avg[i] = vtC11BM{ok: nb(), val: next(), cnt: next()}
+	}
+	for i := 0; i < 3; i++ {
+		b.cur[i] = vtC11BM{ok: nb(), val: next(), cnt: next()}
+	}
 	return x
 }
 
 // vtC11BuildPod renders a pod description as labels / annotations / spec, the way users write them.
-func vtC11BuildPod(p vtC11Pod, featNames []string, plain corev1.ResourceName, batch, mid corev1.ResourceName, plainQty func(int64) resource.Quantity) *corev1.Pod {
+func vtC11BuildPod(p vtC11Pod, extra []vtC11Ctr, featNames []string, plain corev1.ResourceName, batch, mid corev1.ResourceName, plainQty func(int64) resource.Quantity) *corev1.Pod {
 	name := fmt.Sprintf("p%03d", p.id)
 	pod := &corev1.Pod{ObjectMeta: metav1.ObjectMeta{Namespace: "ns", Name: name, UID: types.UID(name),
 		Labels: map[string]string{}, Annotations: map[string]string{}}}
@@ -283,17 +361,43 @@ func vtC11BuildPod(p vtC11Pod, featNames []string, plain corev1.ResourceName, ba
 	default:
 		pod.Status.Phase = corev1.PodFailed
 	}
-	reqs := corev1.ResourceList{}
-	if p.req0 != 0 {
-		reqs[plain] = plainQty(p.req0)
+	mk := func(name string, r0, r1, r2 int64) corev1.Container {
+		reqs := corev1.ResourceList{}
+		if r0 != 0 {
+			reqs[plain] = plainQty(r0)
+		}
+		if r1 != 0 {
+			reqs[batch] = *resource.NewQuantity(r1, resource.DecimalSI)
+		}
+		if r2 != 0 {
+			reqs[mid] = *resource.NewQuantity(r2, resource.DecimalSI)
+		}
+		// limits = requests for the extended resources, as the webhook leaves them
+		lims := corev1.ResourceList{}
+		for k, v := range reqs {
+			if k != plain {
+				lims[k] = v.DeepCopy()
+			}
+		}
+		return corev1.Container{Name: name, Resources: corev1.ResourceRequirements{Requests: reqs, Limits: lims}}
 	}
-	if p.req1 != 0 {
-		reqs[batch] = *resource.NewQuantity(p.req1, resource.DecimalSI)
+	pod.Spec.Containers = []corev1.Container{mk("c", p.req0, p.req1, p.req2)}
+	for i, k := range extra {
+		if k.pod != p.id {
+			continue
+		}
+		c := mk(fmt.Sprintf("x%d", i), k.req0, k.req1, k.req2)
+		switch k.kind {
+		case 0:
+			pod.Spec.Containers = append(pod.Spec.Containers, c)
+		case 2:
+			always := corev1.ContainerRestartPolicyAlways
+			c.RestartPolicy = &always
+			pod.Spec.InitContainers = append(pod.Spec.InitContainers, c)
+		default:
+			pod.Spec.InitContainers = append(pod.Spec.InitContainers, c)
+		}
 	}
-	if p.req2 != 0 {
-		reqs[mid] = *resource.NewQuantity(p.req2, resource.DecimalSI)
-	}
-	pod.Spec.Containers = []corev1.Container{{Name: "c", Resources: corev1.ResourceRequirements{Requests: reqs}}}
 	return pod
 }
 
@@ -338,7 +442,7 @@ func vtC11CPUExec(in []int64) []int64 {
 	var metas []*statesinformer.PodMeta
 	podMetric := map[string]float64{}
 	for _, p := range x.pods {
-		pod := vtC11BuildPod(p, vtC11CPUFeatures, corev1.ResourceCPU, apiext.BatchCPU, apiext.MidCPU, milli)
+		pod := vtC11BuildPod(p, x.extra, vtC11CPUFeatures, corev1.ResourceCPU, apiext.BatchCPU, apiext.MidCPU, milli)
 		metas = append(metas, &statesinformer.PodMeta{Pod: pod})
 		if p.hasMetric {
 			podMetric[string(pod.UID)] = float64(p.used) / 1000
@@ -377,17 +481,34 @@ func vtC11CPUExec(in []int64) []int64 {
 		v := int32(c.aprio)
 		th.AllocatableEvictPriorityThreshold = &v
 	}
+	b := &x.be
+	if b.policy {
+		th.CPUEvictPolicy = slov1alpha1.EvictByAllocatablePolicy
+	} else if len(x.pods)%2 == 1 {
+		th.CPUEvictPolicy = slov1alpha1.EvictByRealLimitPolicy
+	}
+	if b.lowF {
+		th.CPUEvictBESatisfactionLowerPercent = &b.low
+	}
+	if b.upF {
+		th.CPUEvictBESatisfactionUpperPercent = &b.up
+	}
+	if b.uthrF {
+		th.CPUEvictBEUsageThresholdPercent = &b.uthr
+	}
+	if b.winF {
+		th.CPUEvictTimeWindowSeconds = &b.win
+	}
 	si := &vtC11SI{metas: metas, node: node, slo: &slov1alpha1.NodeSLO{Spec: slov1alpha1.NodeSLOSpec{ResourceUsedThresholdWithBE: th}}}
 	metriccache.DefaultAggregateResultFactory = &vtC11Factory{
 		nodeKind: string(metriccache.NodeMetricCPUUsage), podKind: string(metriccache.PodMetricCPUUsage),
-		nodeOK: c.usedOK, node: float64(c.nodeUsed) / 1000, pod: podMetric}
-	// BECPUEvict stays off: its release target (float64 satisfaction over metric windows) is not modelled
+		nodeOK: c.usedOK, node: float64(c.nodeUsed) / 1000, pod: podMetric, be: b}
 	if err := features.DefaultMutableKoordletFeatureGate.SetFromMap(map[string]bool{
-		vtC11CPUFeatures[0]: false, vtC11CPUFeatures[1]: c.feat[1], vtC11CPUFeatures[2]: c.feat[2]}); err != nil {
+		vtC11CPUFeatures[0]: c.feat[0], vtC11CPUFeatures[1]: c.feat[1], vtC11CPUFeatures[2]: c.feat[2]}); err != nil {
 		panic(err)
 	}
 	rec := &vtC11Rec{already: x.already, flips: x.flips, fails: x.fails, features: vtC11CPUFeatures}
-	m := &cpuEvictor{statesInformer: si, metricCache: &vtC11MC{}, metricCollectInterval: time.Second, evictExecutor: rec}
+	m := &cpuEvictor{statesInformer: si, metricCache: &vtC11MC{}, metricCollectInterval: time.Duration(b.interval) * time.Second, evictExecutor: rec}
 
 	be := m.getBEPodEvictInfoAndSort(vtC11CPUFeatures[0], th, si.GetAllPods())
 	vtC11CanonBE(be)
@@ -493,8 +614,185 @@ func vtC11Exact(v int64) int64 {
 	return v
 }
 
+// vtC11GenExtras draws further containers (regular, init, sidecar) for some pods. Requests are
+// multiples of unit (init containers: plus a per-pod residue), so that the pods' summed request
+// figures stay pairwise distinct.
+func vtC11GenExtras(rnd *rand.Rand, pods []int64, unit int64, percent int) []int64 {
+	out := []int64{0}
+	for p := 0; p < int(pods[0]); p++ {
+		id := pods[1+15*p]
+		if rnd.Intn(100) >= percent {
+			continue
+		}
+		for k := 1 + rnd.Intn(3); k > 0; k-- {
+			kind := []int64{0, 1, 2, 2, 2}[rnd.Intn(5)]
+			amount := func() int64 {
+				if rnd.Intn(3) == 0 {
+					return 0
+				}
+				return int64(1+rnd.Intn(40)) * unit
+			}
+			r0 := amount()
+			if kind == 1 && r0 != 0 {
+				r0 += id*8 + 4
+			}
+			out = append(out, id, kind, r0, amount(), amount())
+			out[0]++
+		}
+	}
+	return out
+}
+
+// batch-cpu the pod record f holds while it runs (regular + sidecar containers, positive amounts)
+func vtC11HeldBatch(f []int64, extras []int64) int64 {
+	sum := int64(0)
+	if f[13] > 0 {
+		sum += f[13]
+	}
+	for e := 0; e < int(extras[0]); e++ {
+		k := extras[1+5*e : 1+5*e+5]
+		if k[0] == f[0] && (k[1] == 0 || k[1] == 2) && k[3] > 0 {
+			sum += k[3]
+		}
+	}
+	return sum
+}
+
+// vtC11Detie makes the BE pods pairwise distinct under getBEPodEvictInfoAndSort's comparator
+// (priority, then float64 used/request): sort.Slice orders pods it cannot tell apart arbitrarily
+// and the end-to-end victim order would not be a function of the input.
+func vtC11Detie(rnd *rand.Rand, pods []int64, extras []int64, unit int64) {
+	type key struct {
+		prio  int64
+		ratio float64
+	}
+	for iter := 0; iter < 100; iter++ {
+		seen := map[key]bool{}
+		changed := false
+		for p := 0; p < int(pods[0]); p++ {
+			f := pods[1+15*p : 1+15*p+15]
+			if f[1] == 0 {
+				continue
+			}
+			req, used, k := vtC11HeldBatch(f, extras), int64(0), key{}
+			if f[10] != 0 {
+				used = f[11]
+			}
+			if f[4] == 0 {
+				k.prio = f[5]
+			}
+			if req > 0 {
+				k.ratio = float64(used) / float64(req)
+			}
+			if !seen[k] {
+				seen[k] = true
+				continue
+			}
+			changed = true
+			f[10] = 1
+			if f[13] <= 0 {
+				f[13] = int64(1+rnd.Intn(40))*unit + f[0]*8 + 1
+			}
+			f[11] = vtC11Exact(f[11] + unit*int64(1+rnd.Intn(7)))
+		}
+		if !changed {
+			return
+		}
+	}
+}
+
+// vtC11GenBE draws the BECPUEvict configuration and the node BE cpu metric (29 integers, layout
+// in coq/C11/WireEvict.v). The request metric is what the collector would report for the BE pods
+// (or near it), the real limit a fraction of it around the satisfaction bounds, so that targets
+// between one victim and all of them are common. Returns the section and the integer limit.
+func vtC11GenBE(rnd *rand.Rand, pods []int64, extras []int64, style string) ([]int64, int64) {
+	held := int64(0)
+	for p := 0; p < int(pods[0]); p++ {
+		if f := pods[1+15*p : 1+15*p+15]; f[1] != 0 {
+			held += vtC11HeldBatch(f, extras)
+		}
+	}
+	if held == 0 || rnd.Intn(12) == 0 {
+		held = int64(1 + rnd.Intn(20000))
+	}
+	shift := []int64{0, 0, 0, 1, 3}[rnd.Intn(5)]
+	scale := int64(1) << uint(shift)
+	low := int64(1 + rnd.Intn(60))
+	up := low + int64(rnd.Intn(int(100-low)))
+	switch rnd.Intn(16) {
+	case 0:
+		low = []int64{0, 60, 61, -1}[rnd.Intn(4)]
+	case 1:
+		up = []int64{99, 100, low - 1, low, 0}[rnd.Intn(5)]
+	}
+	// "go": every gate of the satisfaction computation is passed, so that the loop is reached
+	goMode := style == "be" && rnd.Intn(4) != 0
+	if goMode {
+		low = int64(20 + rnd.Intn(41))
+		up = low + int64(rnd.Intn(int(100-low)))
+		if rnd.Intn(3) != 0 {
+			up = 60 + int64(rnd.Intn(40))
+		}
+	}
+	req := held * scale
+	if rnd.Intn(5) == 0 {
+		req += int64(rnd.Intn(int(2*scale+1))) - scale
+	}
+	sat := int64(rnd.Intn(int(low + 10)))
+	if low <= 0 {
+		sat = int64(rnd.Intn(10))
+	}
+	if goMode {
+		sat = int64(1 + rnd.Intn(int(low)))
+	}
+	limit := req * sat / 100
+	if rnd.Intn(6) == 0 && low > 0 {
+		limit = req * low / 100 // at the lower bound: decided by the rounding of limit/request vs low/100
+	}
+	if rnd.Intn(15) == 0 && !goMode {
+		limit = []int64{0, 1, 999 * scale, 1000 * scale, -scale}[rnd.Intn(5)]
+	}
+	uthr := []int64{90, 90, 50, 100, 0, 75}[rnd.Intn(6)]
+	uthrF := rnd.Intn(3) == 0
+	eff := int64(90)
+	if uthrF {
+		eff = uthr
+	}
+	usage := limit * []int64{eff - 1, eff, eff + 1, 95, 100, 100, 100, 50}[rnd.Intn(8)] / 100
+	if goMode {
+		usage = limit * (eff + 1 + int64(rnd.Intn(10))) / 100
+	}
+	interval := []int64{1, 1, 1, 2, 5}[rnd.Intn(5)]
+	win := []int64{1, 3, 9, 10, 30, 60}[rnd.Intn(6)]
+	cnt := func() int64 {
+		if goMode {
+			return 20 + int64(rnd.Intn(20))
+		}
+		if rnd.Intn(10) == 0 {
+			return int64(rnd.Intn(3))
+		}
+		return int64(1 + rnd.Intn(20))
+	}
+	ok := func() int64 { return vtB(goMode || rnd.Intn(25) != 0) }
+	out := []int64{vtB(rnd.Intn(4) == 0), vtB(rnd.Intn(20) != 0), low, vtB(rnd.Intn(20) != 0), up,
+		vtB(uthrF), uthr, vtB(rnd.Intn(2) == 0), win, interval, shift,
+		ok(), usage, cnt(), ok(), req, cnt(), ok(), limit, cnt()}
+	cu, cr, cl := usage, req, limit
+	if rnd.Intn(5) < 2 && !(goMode && rnd.Intn(2) == 0) {
+		jit := func(v int64) int64 {
+			if rnd.Intn(2) == 0 {
+				return v
+			}
+			return v + v*int64(rnd.Intn(41)-20)/100
+		}
+		cu, cr, cl = jit(cu), jit(cr), jit(cl)
+	}
+	out = append(out, ok(), cu, 1, ok(), cr, 1, ok(), cl, 1)
+	return out, limit / scale
+}
+
 func vtC11CPUGen(rnd *rand.Rand, idx int) (string, []int64) {
-	style := []string{"pressure", "pressure", "pressure", "mixed", "calm", "degenerate", "boundary", "boundary"}[rnd.Intn(8)]
+	style := []string{"pressure", "pressure", "mixed", "calm", "degenerate", "boundary", "boundary", "be", "be", "be", "be"}[rnd.Intn(11)]
 	unit := int64([]int{128, 256, 512}[rnd.Intn(3)])
 	cap := int64(4+rnd.Intn(124)) * 1000
 	pct := int64(50 + rnd.Intn(51))
@@ -553,8 +851,32 @@ func vtC11CPUGen(rnd *rand.Rand, idx int) (string, []int64) {
 	for p := 0; p < int(pods[0]); p++ {
 		pods[1+15*p+11] = vtC11Exact(pods[1+15*p+11])
 	}
+	// further containers (sidecars, init containers), BECPUEvict
+	percent := 10
+	if style == "be" {
+		percent = 50
+	}
+	extras := vtC11GenExtras(rnd, pods, unit, percent)
+	be, limit := vtC11GenBE(rnd, pods, extras, style)
+	if (style == "be" && rnd.Intn(10) != 0) || (style != "be" && rnd.Intn(4) == 0) {
+		in[19] = 1
+		if style == "be" {
+			in[0] = 1
+		}
+		vtC11Detie(rnd, pods, extras, unit)
+		if style == "be" && rnd.Intn(2) == 0 {
+			in[20], in[21] = 0, 0
+		}
+		if be[0] != 0 && rnd.Intn(2) == 0 && limit >= 0 {
+			// evictByAllocatable: the batch-cpu allocatable plays the limit (free value, so the
+			// allocatable task, whose float sites need a power of two, stays off)
+			in[17], in[20] = limit, 0
+		}
+	}
 	in = append(in, pods...)
 	in = append(in, vtC11GenOracle(rnd)...)
+	in = append(in, extras...)
+	in = append(in, be...)
 	return style, in
 }
 
